@@ -54,6 +54,12 @@ thread_local! {
     static L: RefCell<Ledger> = RefCell::new(Ledger::default());
     static ARMED: Cell<bool> = const { Cell::new(false) };
     static ALLOCS: Cell<u64> = const { Cell::new(0) };
+    /// live heap blocks of this thread (allocations minus deallocations), always counted
+    static LIVE: Cell<i64> = const { Cell::new(0) };
+}
+
+pub fn live_blocks() -> i64 {
+    LIVE.try_with(|c| c.get()).unwrap_or(0)
 }
 
 pub fn with<R>(f: impl FnOnce(&mut Ledger) -> R) -> R {
@@ -210,6 +216,7 @@ unsafe impl GlobalAlloc for CountingAlloc {
         System.alloc(layout)
     }
     unsafe fn dealloc(&self, ptr: *mut u8, layout: Layout) {
+        let _ = LIVE.try_with(|c| c.set(c.get() - 1));
         System.dealloc(ptr, layout)
     }
     unsafe fn alloc_zeroed(&self, layout: Layout) -> *mut u8 {
@@ -218,12 +225,14 @@ unsafe impl GlobalAlloc for CountingAlloc {
     }
     unsafe fn realloc(&self, ptr: *mut u8, layout: Layout, new_size: usize) -> *mut u8 {
         note();
+        let _ = LIVE.try_with(|c| c.set(c.get() - 1)); // one block before, one block after
         System.realloc(ptr, layout, new_size)
     }
 }
 
 #[inline]
 fn note() {
+    let _ = LIVE.try_with(|c| c.set(c.get() + 1));
     let _ = ARMED.try_with(|a| {
         if a.get() {
             let _ = ALLOCS.try_with(|c| c.set(c.get() + 1));
